@@ -13,17 +13,19 @@
 (* Every event must be explained by the MediaInherit action of the same    *)
 (* name, and the observation must satisfy what the specification           *)
 (* determines (named clauses).  An observation MediaInherit rejects is     *)
-(* then offered to the implementation-shaped model: if a set D of NAMED    *)
-(* deviations predicts exactly what was observed, a KNOWN line names the   *)
-(* smallest such D and validation continues; otherwise REJECT.  One final  *)
-(* ACCEPT / REJECT line per trace.                                         *)
+(* then offered to the implementation-shaped model at the end of the run:  *)
+(* if a set D of NAMED deviations predicts every media observation of the  *)
+(* run, a KNOWN line lists the minimal such sets (I inherit, F flatten,    *)
+(* L lazy; "|" between alternatives) with the first rejected event and all *)
+(* rejected clauses; otherwise REJECT.  One final ACCEPT / REJECT line per *)
+(* trace.                                                                  *)
 (***************************************************************************)
 EXTENDS MediaInheritImpl, Json, IOUtils
 
 Traces == ndJsonDeserialize(IOEnv.IN)
 
-VARIABLES tid, l, phase
-trVars == <<kase, memo, ret, tid, l, phase>>
+VARIABLES tid, l, phase, fl, fc     \* fl: first rejected media observation (0: none), fc: its clauses and later ones
+trVars == <<kase, memo, ret, tid, l, phase, fl, fc>>
 
 DSets == SUBSET Devs
 CaseOf(i) == IF i <= Len(Traces) THEN [cls |-> Traces[i].cls, rel |-> Traces[i].rel]
@@ -32,10 +34,10 @@ Events == Traces[tid].events
 Ev == Events[l]
 
 TrInit == /\ tid = 1 /\ l = 1 /\ phase = "step"
-          /\ kase = CaseOf(1) /\ memo = <<>> /\ ret = NoRet
+          /\ kase = CaseOf(1) /\ memo = <<>> /\ ret = NoRet /\ fl = 0 /\ fc = {}
 
 NextTrace == /\ tid' = tid + 1 /\ l' = 1 /\ phase' = "step"
-             /\ kase' = CaseOf(tid + 1) /\ memo' = <<>> /\ ret' = NoRet
+             /\ kase' = CaseOf(tid + 1) /\ memo' = <<>> /\ ret' = NoRet /\ fl' = 0 /\ fc' = {}
 
 SpecAction(e) ==
   CASE e.op = "create" -> UNCHANGED <<kase, memo, ret>>
@@ -44,7 +46,7 @@ SpecAction(e) ==
 
 Step == /\ tid <= Len(Traces) /\ phase = "step" /\ l <= Len(Events)
         /\ SpecAction(Ev)
-        /\ phase' = "cmp" /\ UNCHANGED <<tid, l>>
+        /\ phase' = "cmp" /\ UNCHANGED <<tid, l, fl, fc>>
 
 Obs(e, t) == CASE t = "js" -> e.js [] t = "all" -> e.all [] t = "print" -> e.print
 
@@ -68,42 +70,55 @@ Failing(e) ==
        (IF e.src # want.src \/ e.kind # want.kind THEN {"N." \o e.a} ELSE {}) \cup
        (IF e.file # (IF want.kind = "file" THEN want.src ELSE 0) THEN {"L." \o e.a} ELSE {})
 
-\* state of the implementation model with deviations D after the first n events of this trace
-\* (evaluated only when an observation needs an explanation)
-RECURSIVE ImplAt(_, _)
-ImplAt(D, n) ==
-  IF n = 0 THEN ImplInit
-  ELSE IF Events[n].op = "access" THEN ImplStep(kase, D, ImplAt(D, n - 1), Events[n].c, Events[n].a)
-  ELSE ImplAt(D, n - 1)
+\* Does the implementation model with deviations D predict what was observed at media event e
+\* (st: its state after the event)?  With "flatten" the exact lists; without it the model does
+\* not fix an order, so the sets, and no contradiction with a declared order.
+OrderFails(e, t) == FilesOK(Obs(e, t), kase, e.c, t) /\ OnceOK(Obs(e, t)) /\ ~OrderOK(Obs(e, t), kase, e.c, t)
+Predicts(D, st, e) ==
+  LET med == ImplMedia(kase, st, e.c) IN
+  /\ e.other = 0
+  /\ \A t \in Types :
+       IF "flatten" \in D THEN Obs(e, t) = med[t]
+       ELSE Range(Obs(e, t)) = Range(med[t]) /\ OnceOK(Obs(e, t)) /\ ~OrderFails(e, t)
 
-\* the deviation sets whose implementation model predicts exactly this observation
-Explaining(e, failing) ==
-  IF e.op # "access" \/ e.exc \/ e.a # "media" \/ e.other # 0 THEN {}
-  ELSE {D \in DSets \ {{}} :
-          LET med == ImplMedia(kase, ImplAt(D, l), e.c) IN
-          \A t \in Types :
-            LET pred == med[t] IN
-            IF "flatten" \in D THEN Obs(e, t) = pred
-            ELSE /\ Range(Obs(e, t)) = Range(pred) /\ OnceOK(Obs(e, t))
-                 /\ ("R." \o t) \notin failing}
-Smallest(SS) == CHOOSE D \in SS : \A E \in SS : Cardinality(D) <= Cardinality(E)
+\* D explains the run so far: it predicts EVERY media observation among the first n events
+RECURSIVE Walk(_, _, _, _)
+Walk(D, st, j, n) ==
+  IF j > n THEN TRUE
+  ELSE LET e == Events[j] IN
+       IF e.op # "access" THEN Walk(D, st, j + 1, n)
+       ELSE LET st2 == ImplStep(kase, D, st, e.c, e.a) IN
+            /\ (e.a = "media" /\ ~e.exc) => Predicts(D, st2, e)
+            /\ Walk(D, st2, j + 1, n)
 
-RECURSIVE Join(_)
-Join(S) == IF S = {} THEN "" ELSE LET x == CHOOSE x \in S : TRUE IN x \o " " \o Join(S \ {x})
+\* the minimal sets of named deviations that explain the whole run
+Explaining ==
+  LET ex == {D \in DSets \ {{}} : Walk(D, ImplInit, 1, Len(Events))} IN
+  {D \in ex : \A E \in ex : ~(E \subseteq D /\ E # D)}
+Explainable(e) == e.op = "access" /\ ~e.exc /\ e.a = "media"
+
+RECURSIVE Join(_, _)
+Join(S, sep) == IF S = {} THEN "" ELSE LET x == CHOOSE x \in S : TRUE IN
+                x \o (IF S = {x} THEN "" ELSE sep) \o Join(S \ {x}, sep)
+Code(D) == Join({CASE d = "inherit" -> "I" [] d = "flatten" -> "F" [] d = "lazy" -> "L" : d \in D}, "")
 
 Cmp == /\ tid <= Len(Traces) /\ phase = "cmp"
        /\ LET failing == Failing(Ev) IN
           IF failing = {}
-          THEN /\ l' = l + 1 /\ phase' = "step" /\ UNCHANGED <<kase, memo, ret, tid>>
-          ELSE LET ex == Explaining(Ev, failing) IN
-               IF ex # {}
-               THEN /\ PrintT(<<"KNOWN", Traces[tid].id, l, Join(Smallest(ex)), Join(failing)>>)
-                    /\ l' = l + 1 /\ phase' = "step" /\ UNCHANGED <<kase, memo, ret, tid>>
-               ELSE /\ PrintT(<<"REJECT", Traces[tid].id, l, Join(failing)>>)
-                    /\ NextTrace
+          THEN /\ l' = l + 1 /\ phase' = "step" /\ UNCHANGED <<kase, memo, ret, tid, fl, fc>>
+          ELSE IF Explainable(Ev)          \* judged at the end of the run, against the whole run
+          THEN /\ fl' = (IF fl = 0 THEN l ELSE fl) /\ fc' = fc \cup failing
+               /\ l' = l + 1 /\ phase' = "step" /\ UNCHANGED <<kase, memo, ret, tid>>
+          ELSE /\ PrintT(<<"REJECT", Traces[tid].id, l, Join(failing, " ")>>)
+               /\ NextTrace
 
 Done == /\ tid <= Len(Traces) /\ phase = "step" /\ l > Len(Events)
-        /\ PrintT(<<"ACCEPT", Traces[tid].id>>)
+        /\ IF fl = 0 THEN PrintT(<<"ACCEPT", Traces[tid].id>>)
+           ELSE LET ex == Explaining IN
+                IF ex # {}
+                THEN /\ PrintT(<<"KNOWN", Traces[tid].id, fl, Join({Code(D) : D \in ex}, "|"), Join(fc, " ")>>)
+                     /\ PrintT(<<"ACCEPT", Traces[tid].id>>)
+                ELSE PrintT(<<"REJECT", Traces[tid].id, fl, Join(fc, " ")>>)
         /\ NextTrace
 
 TrNext == Step \/ Cmp \/ Done
